@@ -265,15 +265,20 @@ class Sim:
 
     def cmd(self, t, raw, remote=("127.0.0.1", 45000)):
         """A datagram arrives on the control socket of transceiver t (0-based)."""
+        self.trx[t].ctrl_if.sock.feed(raw, remote)
+        e = self._serve_ctrl(t, raw, remote)
+        self.trx[t].ctrl_if.sock.inbox.clear()
+        return e
+
+    def _serve_ctrl(self, t, raw, remote):
         trx = self.trx[t]
-        trx.ctrl_if.sock.feed(raw, remote)
         self.time.slept = []
         exc = ""
-        try:
-            trx.ctrl_if.handle_rx()
-        except Exception as e:
-            exc = type(e).__name__
-        trx.ctrl_if.sock.inbox.clear()
+        if trx.ctrl_if.sock.inbox:              # readable: select() would wake the main loop
+            try:
+                trx.ctrl_if.handle_rx()
+            except Exception as e:
+                exc = type(e).__name__
         outs = self._outs()
         for o in outs:                      # shadow of what the replies say (see ver() / tuned())
             if o["kind"] == "ctrl" and o["t"] == t + 1:
